@@ -7,6 +7,8 @@ struct alignas(16) A16 { int v; };
 struct alignas(32) A32 { char c; };
 struct alignas(64) A64 { double d; };
 struct Mixed { char c; double d; short s; };
+struct Big256 { char c[256]; };     // sizes at and beyond the range of the library's 8-bit integer types
+struct Big300 { char c[300]; };
 using LongLong = long long;
 using LongDouble = long double;
 using VoidPtr = void*;
@@ -55,8 +57,10 @@ PAY_MACHINE(p_a16,    A16)
 PAY_MACHINE(p_a32,    A32)
 PAY_MACHINE(p_a64,    A64)
 PAY_MACHINE(p_mixed,  Mixed)
+PAY_MACHINE(p_big256, Big256)
+PAY_MACHINE(p_big300, Big300)
 
 void w_pay_use() {
 	p_char::use(); p_short::use(); p_int::use(); p_llong::use(); p_double::use(); p_ldbl::use();
-	p_ptr::use(); p_p3::use(); p_a16::use(); p_a32::use(); p_a64::use(); p_mixed::use();
+	p_ptr::use(); p_p3::use(); p_a16::use(); p_a32::use(); p_a64::use(); p_mixed::use(); p_big256::use(); p_big300::use();
 }
